@@ -230,7 +230,10 @@ fn world_level(c: &mut Commands, call: Call) -> bool
                     (_, 0) => rc.on_revokable(resource_mutation::<RA>(), || {}),
                     (_, _) => rc.on_revokable(resource_mutation::<RB>(), || {}),
                 };
+                // half of the time the token is revoked twice: the second revoke finds nothing and must change nothing
+                let again = if (x / 2) % 2 == 0 { Some(token.clone()) } else { None };
                 rc.revoke(token);
+                if let Some(token) = again { rc.revoke(token); }
             });
         }),
         Call::WorldResReads(0) => c.queue(|w: &mut World| world_reads::<RA>(w)),
